@@ -336,6 +336,33 @@ func c25ChronKeepsWriter(s *c02Src) (Tri, string) {
 	return Yes, where
 }
 
+// WriteBuffer.Restore puts the entries back IN FRONT of what is buffered (the order of the entries is the order of the writes)
+func c25RestorePrepends(s *c02Src) (Tri, string) {
+	if s.b == nil {
+		return Unknown, ""
+	}
+	fd := s.b.Func("WriteBuffer", "Restore")
+	if fd == nil {
+		if s.w != nil && len(s.w.Calls(s.w.Func("FileWriter", "flushLocked"), "fw.buffer.Restore")) == 0 {
+			return Yes, c02Block // nothing is ever restored
+		}
+		return Unknown, c02Block
+	}
+	where := c02Where(s.b, fd)
+	n, front := 0, false
+	ast.Inspect(fd.Body, func(x ast.Node) bool {
+		if as, ok := x.(*ast.AssignStmt); ok && len(as.Lhs) == 1 && s.b.Str(as.Lhs[0]) == "wb.entries" {
+			n++
+			front = s.b.Str(as.Rhs[0]) == "append(entries, wb.entries...)"
+		}
+		return true
+	})
+	if n == 1 && front {
+		return Yes, where
+	}
+	return Unknown, where
+}
+
 func init() {
 	Register("C25", Extractor{Import: "Hv.Props.C25", Type: "Hv.C25.Facts", Run: func(fs *Facts) {
 		s := c02Load(fs)
@@ -348,6 +375,8 @@ func init() {
 		fs.Tri("splitsOversizedBuffer", t, w)
 		t, w = c25FlushesAtCountBound(s)
 		fs.Tri("flushesAtCountBound", t, w)
+		t, w = c25RestorePrepends(s)
+		fs.Tri("restorePrepends", t, w)
 		t, w = c02ZeroTailIsEOF(s)
 		fs.Tri("zeroTailIsEOF", t, w)
 		t, w = c25WriteErrorsSkipped(s)
